@@ -17,28 +17,40 @@ theorem pend_alive_inWheel {tick : Bool} {w : World} {j : JState} (h : SimJ tick
   · exact hc
   · unfold isDead at halive; rw [hx.1] at halive; cases halive
 
+theorem byName_iff (o f : Nat) (c : Call) : byName o f c = true ↔ (c.fp = false ∧ c.owner = o ∧ c.fn = f) := by
+  unfold byName
+  simp only [Bool.and_eq_true, Bool.not_eq_true', beq_iff_eq]
+  exact and_assoc
+
+theorem pendByName_iff (o f : Nat) (e : Pend) :
+    (!e.fp && e.owner == o && e.fn == f) = true ↔ (e.fp = false ∧ e.owner = o ∧ e.fn = f) := by
+  simp only [Bool.and_eq_true, Bool.not_eq_true', beq_iff_eq]
+  exact and_assoc
+
+theorem pendByName_toPend (o f : Nat) (c : Call) :
+    (!(toPend c).fp && (toPend c).owner == o && (toPend c).fn == f) = byName o f c := rfl
+
 theorem cands_empty {tick : Bool} {w : World} {j : JState} (hw : WheelInv w) (h : SimJ tick w j) (self fn : Nat)
     (halive : isDead w self = false)
-    (hnone : ∀ i, i < N → ∀ y ∈ cum 0 (w.slots i), (y.2.owner == self && y.2.fn == fn) = false) :
-    (j.pend.filter (fun e => e.owner == self && e.fn == fn)).isEmpty = true := by
+    (hnone : ∀ i, i < N → ∀ y ∈ cum 0 (w.slots i), byName self fn y.2 = false) :
+    (j.pend.filter (fun e => !e.fp && e.owner == self && e.fn == fn)).isEmpty = true := by
   rw [List.isEmpty_iff]
   apply List.filter_eq_nil_iff.2
   intro p hp hq
-  simp only [Bool.and_eq_true, beq_iff_eq] at hq
-  obtain ⟨c, hc1, hc2⟩ := pend_alive_inWheel h hp (by rw [hq.1]; exact halive)
-  have := no_wheel_match (P := fun c => c.owner == self && c.fn == fn) hw hnone c hc1
-  rw [← hc2] at hq
-  simp [toPend] at hq
-  simp [hq] at this
+  have hq' := (pendByName_iff self fn p).1 hq
+  obtain ⟨c, hc1, hc2⟩ := pend_alive_inWheel h hp (by rw [hq'.2.1]; exact halive)
+  have := no_wheel_match (P := byName self fn) hw hnone c hc1
+  rw [← hc2, pendByName_toPend, this] at hq
+  cases hq
 
 theorem sim_rmn {tick : Bool} {w : World} {j : JState} (hw : WheelInv w) (h : SimJ tick w j)
     (self fn : Nat) (halive : isDead w self = false) :
     SimJ tick (removeByName w self fn).1 (judgeStep j (.rmn (vnow w) self fn (removeByName w self fn).2)) := by
   unfold removeByName
-  cases hsc : scanFrom (fun i => removeFirst (fun c => c.owner == self && c.fn == fn) (w.slots i) 0) N 0 with
+  cases hsc : scanFrom (fun i => removeFirst (byName self fn) (w.slots i) 0) N 0 with
   | none =>
     simp only []
-    have hnone : ∀ i, i < N → ∀ y ∈ cum 0 (w.slots i), (y.2.owner == self && y.2.fn == fn) = false := by
+    have hnone : ∀ i, i < N → ∀ y ∈ cum 0 (w.slots i), byName self fn y.2 = false := by
       intro i hi
       exact removeFirst_none (scanFrom_none hsc i (Nat.zero_le _) (by omega))
     have hce := cands_empty hw h self fn halive hnone
@@ -54,28 +66,30 @@ theorem sim_rmn {tick : Bool} {w : World} {j : JState} (hw : WheelInv w) (h : Si
     have hxw : InWheel w x.2 := ⟨_, x.1, hx⟩
     have hmem := h.wheelPend _ hxw
     have hval : timeLeft w i r.1 = (toPend x.2).due - vnow w := by rw [← e3]; exact timeLeft_pend hw hx
-    have hxo : x.2.owner = self ∧ x.2.fn = fn := by simpa using e4
-    have hce : (j.pend.filter (fun e => e.owner == self && e.fn == fn)).isEmpty = false := by
-      cases hc : (j.pend.filter (fun e => e.owner == self && e.fn == fn)).isEmpty with
+    have hxP : (!(toPend x.2).fp && (toPend x.2).owner == self && (toPend x.2).fn == fn) = true := by
+      rw [pendByName_toPend]; exact e4
+    have hce : (j.pend.filter (fun e => !e.fp && e.owner == self && e.fn == fn)).isEmpty = false := by
+      cases hc : (j.pend.filter (fun e => !e.fp && e.owner == self && e.fn == fn)).isEmpty with
       | false => rfl
       | true =>
         rw [List.isEmpty_iff] at hc
         have := List.filter_eq_nil_iff.1 hc _ hmem
-        simp [toPend, hxo] at this
+        exact absurd hxP this
+    have hxQ : (fun e : Pend => !e.fp && e.owner == self && e.fn == fn && e.due - vnow w == (toPend x.2).due - vnow w)
+        (toPend x.2) = true := by
+      simp only [hxP, beq_self_eq_true, Bool.and_self]
     obtain ⟨e, rest, hro⟩ := removeOne_isSome_of_mem
-      (q := fun e => e.owner == self && e.fn == fn && e.due - vnow w == (toPend x.2).due - vnow w) hmem
-      (by simp [toPend, hxo])
+      (q := fun e => !e.fp && e.owner == self && e.fn == fn && e.due - vnow w == (toPend x.2).due - vnow w) hmem hxQ
     obtain ⟨r1, r2, _, _, r5⟩ := removeOne_some hro h.pendSorted
     have hee : e = toPend x.2 := by
       simp only [Bool.and_eq_true, beq_iff_eq] at r2
-      obtain ⟨c, hc1, hc2⟩ := pend_alive_inWheel h r1 (by rw [r2.1.1]; exact halive)
+      have r2a := (pendByName_iff self fn e).1 (by simp only [Bool.and_eq_true, beq_iff_eq]; exact r2.1)
+      obtain ⟨c, hc1, hc2⟩ := pend_alive_inWheel h r1 (by rw [r2a.2.1]; exact halive)
       subst hc2
       have hdue : c.due = x.2.due := by
         have := r2.2; simp only [toPend] at this; omega
-      have hcP : (c.owner == self && c.fn == fn) = true := by
-        have a := r2.1.1; have b := r2.1.2
-        simp only [toPend] at a b
-        simp [a, b]
+      have hcP : byName self fn c = true := by
+        rw [← pendByName_toPend]; simp only [Bool.and_eq_true, beq_iff_eq]; exact r2.1
       have hA : ∀ y ∈ A, y.2 ≠ c := by
         intro y hy heq
         have := e5 y hy
@@ -83,7 +97,7 @@ theorem sim_rmn {tick : Bool} {w : World} {j : JState} (hw : WheelInv w) (h : Si
       rcases first_has_largest_handle hw e1 hc1 hdue hA with hcx | hlt
       · rw [hcx]
       · exfalso
-        have := r5 _ hmem (by simp [toPend, hxo])
+        have := r5 _ hmem hxQ
         simp only [toPend] at this
         omega
     subst hee
@@ -96,10 +110,10 @@ theorem sim_fnm {tick : Bool} {w : World} {j : JState} (hw : WheelInv w) (h : Si
     (self fn : Nat) (halive : isDead w self = false) :
     SimJ tick w (judgeStep j (.fnm (vnow w) self fn (findByName w self fn))) := by
   unfold findByName
-  cases hsc : scanFrom (fun i => findFirst (fun c => c.owner == self && c.fn == fn) (w.slots i) 0) N 0 with
+  cases hsc : scanFrom (fun i => findFirst (byName self fn) (w.slots i) 0) N 0 with
   | none =>
     simp only []
-    have hnone : ∀ i, i < N → ∀ y ∈ cum 0 (w.slots i), (y.2.owner == self && y.2.fn == fn) = false := by
+    have hnone : ∀ i, i < N → ∀ y ∈ cum 0 (w.slots i), byName self fn y.2 = false := by
       intro i hi y hy
       have := scanFrom_none hsc i (Nat.zero_le _) (by omega)
       simp only [findFirst_eq, Option.map_eq_none_iff] at this
@@ -114,23 +128,25 @@ theorem sim_fnm {tick : Bool} {w : World} {j : JState} (hw : WheelInv w) (h : Si
     simp only []
     have hff := (scanFrom_some hsc).2.2
     simp only [findFirst_eq] at hff
-    cases hf : List.find? (fun x => x.2.owner == self && x.2.fn == fn) (cum 0 (w.slots i)) with
+    cases hf : List.find? (fun x => byName self fn x.2) (cum 0 (w.slots i)) with
     | none => rw [hf] at hff; cases hff
     | some x =>
       rw [hf] at hff
       simp only [Option.map_some, Option.some.injEq] at hff
       have hx : x ∈ cum 0 (w.slots i) := List.mem_of_find?_eq_some hf
-      have hxo : x.2.owner = self ∧ x.2.fn = fn := by simpa using List.find?_some hf
+      have e4 : byName self fn x.2 = true := List.find?_some (p := fun x : Int × Call => byName self fn x.2) hf
       have hxw : InWheel w x.2 := ⟨_, x.1, hx⟩
       have hmem := h.wheelPend _ hxw
       have hval : timeLeft w i d = (toPend x.2).due - vnow w := by rw [← hff]; exact timeLeft_pend hw hx
-      have hmemc : toPend x.2 ∈ j.pend.filter (fun e => e.owner == self && e.fn == fn) :=
-        List.mem_filter.2 ⟨hmem, by simp [toPend, hxo]⟩
-      have hce : (j.pend.filter (fun e => e.owner == self && e.fn == fn)).isEmpty = false := by
-        cases hc : (j.pend.filter (fun e => e.owner == self && e.fn == fn)).isEmpty with
+      have hxP : (!(toPend x.2).fp && (toPend x.2).owner == self && (toPend x.2).fn == fn) = true := by
+        rw [pendByName_toPend]; exact e4
+      have hmemc : toPend x.2 ∈ j.pend.filter (fun e => !e.fp && e.owner == self && e.fn == fn) :=
+        List.mem_filter.2 ⟨hmem, hxP⟩
+      have hce : (j.pend.filter (fun e => !e.fp && e.owner == self && e.fn == fn)).isEmpty = false := by
+        cases hc : (j.pend.filter (fun e => !e.fp && e.owner == self && e.fn == fn)).isEmpty with
         | false => rfl
         | true => rw [List.isEmpty_iff] at hc; rw [hc] at hmemc; cases hmemc
-      have hany : (j.pend.filter (fun e => e.owner == self && e.fn == fn)).any
+      have hany : (j.pend.filter (fun e => !e.fp && e.owner == self && e.fn == fn)).any
           (fun e => answerOk j e (vnow w) ((toPend x.2).due - vnow w)) = true :=
         List.any_eq_true.2 ⟨_, hmemc, by simp [answerOk]⟩
       have hj : judgeStep j (.fnm (vnow w) self fn (timeLeft w i d)) = j := by
